@@ -254,6 +254,12 @@ pub fn run_random(seed: u64, shard: u64, cases: usize) -> Report {
             let p = rng.pick(&pool).text.clone();
             probes.push(MVer::v(&format!("{p}+a")));
         }
+        // every bound also with build metadata (same precedence, so same membership)
+        for b in r1.bounds() {
+            if !b.has_build() {
+                probes.push(MVer::v(&format!("{}+meta.{}", b.text, rng.below(9))));
+            }
+        }
         check_membership(&mut rep, &r1, &probes, &ctx);
         check_conflict(&mut rep, &r1, &r2, &ctx);
     }
